@@ -137,6 +137,14 @@ theorem restore_view (sb : Sub) (g : Nat) : (sb.restore g).view = sb.view.restor
   simp only [Sub.view_cur]
   by_cases h1 : sb.cur ≤ g
   · simp only [h1, if_true]
+    unfold Sub.view
+    simp only [Sub.mk.injEq, true_and, List.map_map]
+    apply List.map_congr_left
+    intro e _
+    simp only [Function.comp]
+    unfold CE.unfresh
+    show CE.static _ = (if g < e.dep then _ else _)
+    split <;> rfl
   · simp only [h1, if_false]
     by_cases h2 : g = 0
     · simp only [h2, if_true]; rfl
@@ -293,7 +301,12 @@ theorem SubGood.restore {sys : Nat} {sb : Sub} (h : SubGood sys sb) (g : Nat) :
   unfold Sub.restore
   by_cases h1 : sb.cur ≤ g
   · simp only [h1, if_true]
-    exact h.mono_sys (Nat.min_le_left _ _)
+    have h' := h.mono_sys (Nat.min_le_left sys g)
+    exact { h' with
+      ces := (StackOK.map_iff (a := CE.alloc) (b := CE.alloc) (fun e => e.unfresh g sb.cur) (fun _ => CE.unfresh_alloc _ _ _)).mpr h'.ces,
+      cewf := fun e he => by
+        obtain ⟨x, hx, rfl⟩ := List.mem_map.mp he
+        simpa using h'.cewf x hx }
   · simp only [h1, if_false]
     by_cases h2 : g = 0
     · simp only [h2, if_true]
